@@ -33,3 +33,11 @@ Fixpoint accept_loop (rs : list accept_result) (delay : N) (nconn : nat) : list 
   end.
 
 Definition serve (rs : list accept_result) : list action * serve_result := accept_loop rs 0 O.
+
+(* the session id handed to s.serve: lastSession after its increment, i.e. the position of the connection among the
+   accepted ones, counted from 1 (printed with %08x) *)
+Definition session_id (i : nat) : N := N.of_nat (S i).
+
+(* connections that were handed to a session goroutine, in order *)
+Definition served (acts : list action) : list nat :=
+  flat_map (fun a => match a with ServeConn i => [i] | _ => [] end) acts.
